@@ -364,6 +364,147 @@ fn dispatch_int(op: &str, args: &[&str]) -> Option<Res> {
                     feed(&a) == feed(&b)
                 ))
             }
+            // c.hist <prog> : run a history (program over a register file of IBig) — the instruction set of
+            // the model's `hrun` (lean/Dashu/Proofs/Int/Hist.lean); instructions are separated by `,`, fields
+            // by `:`.  Prints every register, how the program ended, and whether ==/cmp/hash of ALL pairs of
+            // registers follow the printed values.
+            "c.hist" => {
+                use dashu_base::{DivEuclid, RemEuclid};
+                use dashu_base::PowerOfTwo;
+                let prog = arg(args, 0)?;
+                let mut regs: Vec<IBig> = vec![];
+                let mut status = "done".to_string();
+                for ins in prog.split(',') {
+                    let f: Vec<&str> = ins.split(':').collect();
+                    let reg = |k: usize| -> Result<&IBig, String> {
+                        let i: usize = f.get(k).ok_or("bad-arg hist")?.parse().map_err(|_| "bad-arg hist idx")?;
+                        regs.get(i).ok_or_else(|| "__bad__".to_string())
+                    };
+                    let num = |k: usize| -> Result<usize, String> {
+                        f.get(k).ok_or("bad-arg hist")?.parse().map_err(|_| "bad-arg hist num".to_string())
+                    };
+                    let ubig = |x: &IBig| -> Result<UBig, String> {
+                        UBig::try_from(x.clone()).map_err(|_| "__bad__".to_string())
+                    };
+                    let step = || -> Result<IBig, String> {
+                        Ok(match f[0] {
+                            "const" => p_ibig(f[1])?,
+                            "words" => {
+                                let ws: Vec<Word> = if f[2].is_empty() {
+                                    vec![]
+                                } else {
+                                    f[2].split('.')
+                                        .map(|t| Word::from_str_radix(t, 16).map_err(|_| "bad-arg word".to_string()))
+                                        .collect::<Result<_, _>>()?
+                                };
+                                let sign = if f[1] == "1" { Sign::Negative } else { Sign::Positive };
+                                IBig::from_parts(sign, UBig::from_words(&ws))
+                            }
+                            "fu" => IBig::from(u128::from_str_radix(f[1], 16).map_err(|_| "bad-arg fu")?),
+                            "fs" => {
+                                let v = p_ibig(f[2])?;
+                                match f[1] {
+                                    "8" => IBig::from(i8::try_from(&v).map_err(|_| "bad-arg fs")?),
+                                    "16" => IBig::from(i16::try_from(&v).map_err(|_| "bad-arg fs")?),
+                                    "32" => IBig::from(i32::try_from(&v).map_err(|_| "bad-arg fs")?),
+                                    "64" => IBig::from(i64::try_from(&v).map_err(|_| "bad-arg fs")?),
+                                    "128" => IBig::from(i128::try_from(&v).map_err(|_| "bad-arg fs")?),
+                                    _ => return Err("bad-arg fs bits".into()),
+                                }
+                            }
+                            "ones" => IBig::from(UBig::ones(num(1)?)),
+                            "clone" => reg(1)?.clone(),
+                            "neg" => -(reg(1)?.clone()),
+                            "abs" => reg(1)?.clone().abs(),
+                            "not" => !(reg(1)?.clone()),
+                            "sqr" => IBig::from(reg(1)?.sqr()),
+                            "pow" => reg(1)?.pow(num(2)?),
+                            "shl" => reg(1)? << num(2)?,
+                            "shr" => {
+                                if f.get(3) == Some(&"1") {
+                                    reg(1)? >> num(2)?
+                                } else {
+                                    reg(1)?.clone() >> num(2)?
+                                }
+                            }
+                            "add" => match f.get(3).copied() {
+                                Some("1") => reg(1)? + reg(2)?.clone(),
+                                Some("2") => reg(1)?.clone() + reg(2)?,
+                                _ => reg(1)? + reg(2)?,
+                            },
+                            "sub" => match f.get(3).copied() {
+                                Some("1") => reg(1)? - reg(2)?.clone(),
+                                Some("2") => reg(1)?.clone() - reg(2)?,
+                                _ => reg(1)? - reg(2)?,
+                            },
+                            "mul" => reg(1)? * reg(2)?,
+                            "div" => reg(1)? / reg(2)?,
+                            "rem" => reg(1)? % reg(2)?,
+                            "dive" => reg(1)?.div_euclid(reg(2)?),
+                            "reme" => IBig::from(reg(1)?.rem_euclid(reg(2)?)),
+                            "and" => reg(1)? & reg(2)?,
+                            "or" => reg(1)? | reg(2)?,
+                            "xor" => reg(1)? ^ reg(2)?,
+                            "setbit" => {
+                                let mut u = ubig(reg(1)?)?;
+                                u.set_bit(num(2)?);
+                                IBig::from(u)
+                            }
+                            "clearbit" => {
+                                let mut u = ubig(reg(1)?)?;
+                                u.clear_bit(num(2)?);
+                                IBig::from(u)
+                            }
+                            "clearhigh" => {
+                                let mut u = ubig(reg(1)?)?;
+                                u.clear_high_bits(num(2)?);
+                                IBig::from(u)
+                            }
+                            "splitlo" => IBig::from(ubig(reg(1)?)?.split_bits(num(2)?).0),
+                            "splithi" => IBig::from(ubig(reg(1)?)?.split_bits(num(2)?).1),
+                            "nextpow2" => IBig::from(ubig(reg(1)?)?.next_power_of_two()),
+                            o => return Err(format!("bad-arg hist op {}", o)),
+                        })
+                    };
+                    let r = match std::panic::catch_unwind(std::panic::AssertUnwindSafe(step)) {
+                        Ok(x) => x,
+                        Err(_) => {
+                            let (msg, loc) = LAST_PANIC
+                                .with(|p| p.borrow_mut().take())
+                                .unwrap_or_else(|| ("?".into(), "?".into()));
+                            Err(format!("__panic__{}", classify_panic(&msg, &loc)))
+                        }
+                    };
+                    match r {
+                        Ok(v) => regs.push(v),
+                        Err(e) if e == "__bad__" => {
+                            status = "bad".into();
+                            break;
+                        }
+                        Err(e) if e.starts_with("__panic__") => {
+                            status = format!("panic:{}", &e[9..]);
+                            break;
+                        }
+                        Err(e) => return Err(e),
+                    }
+                }
+                let _ = &mut status;
+                let vals: Vec<String> = regs.iter().map(f_ibig).collect();
+                let mut verdict = "consistent".to_string();
+                'outer: for i in 0..regs.len() {
+                    for j in 0..regs.len() {
+                        let same = vals[i] == vals[j];
+                        let (a, b) = (&regs[i], &regs[j]);
+                        if (a == b) != same || (a.cmp(b) == Ordering::Equal) != same || (feed(a) == feed(b)) != same
+                            || a.cmp(b) != b.cmp(a).reverse()
+                        {
+                            verdict = format!("BAD pair {} {}", i, j);
+                            break 'outer;
+                        }
+                    }
+                }
+                Ok(format!("{} {} {}", vals.join(" "), status, verdict))
+            }
             "c.ones" => {
                 let n = p_usize(arg(args, 0)?)?;
                 let o = UBig::ones(n);
@@ -620,6 +761,47 @@ pub mod fr {
                         ("27", "3") => via!(27, 3, 3, false),
                         ("100", "10") => via!(100, 10, 2, false),
                         (a, b) => Err(format!("bad-arg bases {} {}", a, b)),
+                    }
+                }
+                // f.subcmp <base> sa ea sb eb d:p sr er sc ec d:pc : r = a - b at precision p (operands of the same
+                // sign, so the difference may keep the spare digit: p+1 significant digits, flagged Exact); the
+                // generator predicts r = sr*B^er (checked here), then r is compared with c = sc*B^ec (precision
+                // pc) in both orders -> `<==> <r cmp c> <c cmp r>`
+                "f.subcmp" => {
+                    macro_rules! go {
+                        ($T:ty) => {{
+                            let p = p_usize(arg(args, 5)?)?;
+                            let a = mkf!($T, arg(args, 1)?, p_isize(arg(args, 2)?)?, p);
+                            let b = mkf!($T, arg(args, 3)?, p_isize(arg(args, 4)?)?, p);
+                            let r: $T = &a - &b;
+                            let want = <$T>::from_parts(p_ibig(arg(args, 6)?)?, p_isize(arg(args, 7)?)?);
+                            if r.repr().significand() != want.repr().significand()
+                                || r.repr().exponent() != want.repr().exponent()
+                                || r.precision() != p
+                            {
+                                return Ok(format!(
+                                    "unexpected-difference {} {} {}",
+                                    f_ibig(r.repr().significand()),
+                                    r.repr().exponent(),
+                                    r.precision()
+                                ));
+                            }
+                            let c = mkf!($T, arg(args, 8)?, p_isize(arg(args, 9)?)?, p_usize(arg(args, 10)?)?);
+                            Ok(format!(
+                                "{} {} {}{}{}",
+                                r == c,
+                                r.partial_cmp(&c).map(f_ord).unwrap_or("none"),
+                                c.partial_cmp(&r).map(f_ord).unwrap_or("none"),
+                                norm_mark(&r),
+                                norm_mark(&c)
+                            ))
+                        }};
+                    }
+                    match arg(args, 0)? {
+                        "2" => go!(F2),
+                        "10" => go!(F10),
+                        "16" => go!(F16),
+                        b => Err(format!("bad-arg base {}", b)),
                     }
                 }
                 // f.routes s e : the decimal float s*10^e built by several routes; every result must have the
